@@ -167,7 +167,7 @@ where
     /// Get's the height of a given block based on its position in the block queue.
     pub fn get_height(&self, block_hash: &BlockHash) -> Option<usize> {
         let pos = self.blocks.iter().position(|x| x == block_hash)?;
-        Some(self.tip as usize + pos + 1 - self.blocks.len())
+        Some(self.tip as usize + pos + 1 - self.size)
     }
 
     /// Updates the index by adding data from a new block. Removes the oldest block if the index is full afterwards.
